@@ -100,8 +100,12 @@ def rand_stream(rnd):
         hdr = struct.pack("<IIII", rnd.choice([0, 5, 10, 1000, 2000000000]), rnd.randrange(1000000), len(raw),
                           rnd.choice([len(raw), len(raw) + rnd.randrange(1500)]))
         pk.append({"hdr": hdr, "raw": raw})
+    # a capture made with a small snaplen holds packets of exactly that captured length
+    snap = rnd.choice([65535, 262144, 1500, 96])
+    if pk and rnd.random() < 0.35:
+        snap = max(len(p["raw"]) for p in pk)
     gh = pcapfmt.global_header(magic=rnd.choice([pcapfmt.MAGIC_US, pcapfmt.MAGIC_NS]), vmaj=rnd.choice([2, 2, 1]), vmin=rnd.choice([4, 4, 0]),
-                               thiszone=rnd.choice([0, 0, -3600]), sigfigs=rnd.choice([0, 6]), snaplen=rnd.choice([65535, 262144, 1500, 96]),
+                               thiszone=rnd.choice([0, 0, -3600]), sigfigs=rnd.choice([0, 6]), snaplen=snap,
                                linktype=rnd.choice([1, 1, 1, 101]))
     return gh, pk
 
@@ -168,7 +172,7 @@ def run(rep, tier, seed):
             rep.disagree(sig, {"program": m["src"], "packets": len(m["pk"]), "observed": m["observed"], "expected": v.get("want"),
                                "input_header_hex": m["gh"].hex()})
     rep.cov["distinct_nontrivial"] = len({(m["src"], len(m["pk"]), m["skip"]) for m in metas if m["prog"]["filters"] or m["prog"]["hasEnd"]})
-    rep.cov["rule"] = ("random streams (0-40 Ethernet/IPv4 packets, both magics, snaplen 96..262144, linktype 1/101, versions, zone) x "
+    rep.cov["rule"] = ("random streams (0-40 Ethernet/IPv4 packets, both magics, snaplen 96..262144 or exactly the longest captured length, linktype 1/101, versions, zone) x "
                        "random programs of 0-4 filters over the FilterMode vocabulary, with / without end filter and -s; distinct = "
                        "distinct (program, packet count, -s); non-trivial = the program has a filter or an end filter")
     rep.cov["exhaustive"] = False
